@@ -408,6 +408,11 @@ func (r *c15Run) always(op string, s c15Snap) {
 		}
 		sh.status = st
 	}
+	// the dedupe set is exactly the set of endpoints with a queued probe (C15_probe_queue_dedupe): an endpoint in the set
+	// but not in the queue would never be probed again
+	if s.q != uint64(popcount(s.pset)) {
+		r.fail("failover/probe-queue-and-dedupe-set-disagree", fmt.Sprintf("after %q the probe queue holds %d adapter(s) but the dedupe set names %d endpoint(s) (%b): an endpoint in the set without a queued probe is locked out of future probes", op, s.q, popcount(s.pset), s.pset))
+	}
 	for e := 0; e < c15Universe; e++ {
 		// whatever the registry did with it meanwhile: a blocked endpoint re-enters rotation only through a successful probe
 		if r.epOut[e] && !r.shrunk && r.inAnySelector(s, e) {
